@@ -7,7 +7,7 @@ V: drv_lexer runs the real recognisers / parseProgramData / parseAllProgramData 
 string over per-recogniser class alphabets (exact-size allocations under ASan, three embeddings, a garbage
 pre-filled output token), on seeded random longer strings and on the long tokens emitted by TLC; TVLexer validates
 every recorded result against ScpiLexer."""
-import json, os, shutil, concurrent.futures, collections
+import json, os, re, shutil, concurrent.futures, collections
 import lib
 
 NAMES = ['WhiteSpace', 'ProgramHeader', 'CharacterProgramData', 'DecimalNumericProgramData', 'SuffixProgramData',
@@ -88,6 +88,10 @@ def validate(rep, path, label, chunk=30000, par=4):
                     obs = row[2][rec['k'].index(rid)]
                     for kind in kinds_of(rec, m, rid, lab, rid not in bad0):
                         mism += 1
+                        byk = rep.cov.setdefault('mismatches_by_kind', {})
+                        byk[kind] = byk.get(kind, 0) + 1
+                        if byk[kind] > 60:      # full detail for the first 60 cases of a kind, the rest is counted
+                            continue
                         rep.violation(kind, dict(source=label, recogniser=NAMES[rid], embedding=MODES[m], cursor=row[1],
                                                  input=bytes(rec['b']).decode('latin-1'), observed=obs, why=lab,
                                                  record=dict(g=rec['g'], b=rec['b'], k=[rid], r=[[m, row[1], [obs]]])))
@@ -126,8 +130,7 @@ def run(pid, tier):
         return name, lib.tlc('MCLexer', 'MCLexer_%s_%s.cfg' % (name, tier), workers=4, timeout=850, xmx='3g')
     mcpool = concurrent.futures.ThreadPoolExecutor(max_workers=2)
     mcjobs = [mcpool.submit(mc, a) for a in sorted(MC, key=lambda a: -a[1 if q else 2])]
-    # ---- plan
-    longs = gen_long(rep, w, tier)
+    # ---- plan: enumerated and random groups now, TLC-generated long tokens when the generator is done
     plan = []
     for name, alpha, nq, nt, ids in GROUPS:
         plan.append((name, 'enum', alpha, 0, nq if q else nt, ids, 0, '-'))
@@ -135,35 +138,56 @@ def run(pid, tier):
     for name, alpha, nq, nt, ids in GROUPS:
         n = nq if q else nt
         plan.append(('r' + name, 'rand', alpha, n + 1, n + 8, ids, nrand, '-'))
-    for g, path in sorted(longs.items()):
-        plan.append((g, 'file', [65], 0, 190, LONG_IDS.get(g, [14, 16]), 0, path))
-    with open(w + '/plan.txt', 'w') as f:
-        for name, kind, alpha, lo, hi, ids, cnt, path in plan:
-            f.write('%s %s %s %d %d %s %d %s\n' % (name, kind, hexs(alpha), lo, hi, ','.join(map(str, ids)), cnt, path))
-    # ---- V: run the real code
-    def drv(i):
-        return i, lib.run_driver(exe, [w + '/plan.txt', i, lib.seed(), '%s/g%d.ndjson' % (w, i)], timeout=800)
+    def write_plan(path, pl):
+        with open(path, 'w') as f:
+            for name, kind, alpha, lo, hi, ids, cnt, fp in pl:
+                f.write('%s %s %s %d %d %s %d %s\n' % (name, kind, hexs(alpha), lo, hi, ','.join(map(str, ids)), cnt, fp))
+    write_plan(w + '/plan.txt', plan)
     stats = collections.Counter()
-    ok_files = []
-    with concurrent.futures.ThreadPoolExecutor(max_workers=8) as ex:
-        for i, d in ex.map(drv, range(len(plan))):
-            if d['rc'] != 0:
-                err = d['stderr'].decode(errors='replace')
-                case = [l for l in err.splitlines() if l.startswith('DRV-')]
-                rep.violation('sanitizer-report' if d['rc'] in (97, 98) else 'driver-failure',
-                              dict(group=plan[i][0], rc=d['rc'], case=case[:3], stderr=err[-1500:]))
-                continue
-            s = json.loads(d['stdout'].decode().strip().splitlines()[-1])
-            rep.cov['driver_runs'].append(s)
-            for k in ('strings', 'evaluations', 'nontrivial', 'nt_prefix', 'nt_rollback', 'nt_end'):
-                stats[k] += s[k]
-            ok_files.append('%s/g%d.ndjson' % (w, i))
-    with open(w + '/all.ndjson', 'w') as o:
-        for p in ok_files:
-            with open(p) as f:
-                shutil.copyfileobj(f, o)
-            os.unlink(p)
+    def run_drivers(planfile, pl, idxs, outpath):
+        def drv(i):
+            return i, lib.run_driver(exe, [planfile, i, lib.seed(), '%s/g%d.ndjson' % (w, i)], timeout=800)
+        ok_files = []
+        with concurrent.futures.ThreadPoolExecutor(max_workers=6) as ex:
+            for i, d in ex.map(drv, idxs):
+                if d['rc'] != 0:
+                    err = d['stderr'].decode(errors='replace')
+                    case = [l for l in err.splitlines() if l.startswith('DRV-')]
+                    det = dict(group=pl[i][0], rc=d['rc'], case=case[:3], stderr=err[-1500:])
+                    mm = re.search(r'DRV-CASE id=(\d+) m=(\d+) hex=([0-9a-f]*)', err)
+                    if mm:
+                        det['recogniser'] = NAMES[int(mm.group(1))]
+                        det['embedding'] = MODES[int(mm.group(2))]
+                        det['input'] = bytes.fromhex(mm.group(3)).decode('latin-1')
+                        det['record'] = dict(g='asan', b=list(bytes.fromhex(mm.group(3))), k=[int(mm.group(1))], r=[])
+                    rep.violation('sanitizer-report' if d['rc'] in (97, 98) else 'driver-failure', det)
+                    continue
+                st = json.loads(d['stdout'].decode().strip().splitlines()[-1])
+                rep.cov['driver_runs'].append(st)
+                for k in ('strings', 'evaluations', 'nontrivial', 'nt_prefix', 'nt_rollback', 'nt_end'):
+                    stats[k] += st[k]
+                ok_files.append('%s/g%d.ndjson' % (w, i))
+        with open(outpath, 'w') as o:
+            for p in ok_files:
+                with open(p) as f:
+                    shutil.copyfileobj(f, o)
+                os.unlink(p)
+    def long_pipeline():
+        longs = gen_long(rep, w, tier)
+        pl = list(plan)
+        for g, path in sorted(longs.items()):
+            pl.append((g, 'file', [65], 0, 190, LONG_IDS.get(g, [14, 16]), 0, path))
+        write_plan(w + '/plan2.txt', pl)
+        run_drivers(w + '/plan2.txt', pl, range(len(plan), len(pl)), w + '/long_rec.ndjson')
+        return len(pl) - len(plan)
+    lpool = concurrent.futures.ThreadPoolExecutor(max_workers=1)
+    ljob = lpool.submit(long_pipeline)
+    # ---- V: run the real code, validate every record
+    run_drivers(w + '/plan.txt', plan, range(len(plan)), w + '/all.ndjson')
     validate(rep, w + '/all.ndjson', 'records', par=3)
+    if ljob.result() > 0:
+        validate(rep, w + '/long_rec.ndjson', 'long-tokens', par=3)
+    lpool.shutdown()
     for j in mcjobs:
         name, r = j.result()
         rep.add_tlc('MCLexer_' + name, r, 'model checking of ScpiLexer: recogniser = longest prefix of its grammar, cursor/extent bounds, exclusive alternatives, unit grammar')
@@ -212,16 +236,20 @@ def replay(pid, path):
     d = json.load(open(path))
     exe = lib.build('drv_lexer', ['drv_lexer.c'])
     seen = set()
-    with open(w + '/in.hex', 'w') as f, open(w + '/plan.txt', 'w') as pl:
-        for v in d.get('violations', []):
-            rec = v['detail'].get('record')
-            if rec and (tuple(rec['b']), rec['k'][0]) not in seen:
-                seen.add((tuple(rec['b']), rec['k'][0]))
-                with open('%s/i%d.hex' % (w, len(seen)), 'w') as g:
-                    g.write(hexs(rec['b']) + '\n')
-                pl.write('replay file 41 0 190 %d 0 %s/i%d.hex\n' % (rec['k'][0], w, len(seen)))
+    byid = collections.defaultdict(list)
+    for v in d.get('violations', []):
+        rec = v['detail'].get('record')
+        if rec and (tuple(rec['b']), rec['k'][0]) not in seen:
+            seen.add((tuple(rec['b']), rec['k'][0]))
+            byid[rec['k'][0]].append(rec['b'])
+    with open(w + '/plan.txt', 'w') as pl:
+        for rid, bs in sorted(byid.items()):
+            with open('%s/i%d.hex' % (w, rid), 'w') as g:
+                for b in bs:
+                    g.write(hexs(b) + '\n')
+            pl.write('replay file 41 0 190 %d 0 %s/i%d.hex\n' % (rid, w, rid))
     with open(w + '/r.ndjson', 'w') as o:
-        for i in range(len(seen)):
+        for i in range(len(byid)):
             dr = lib.run_driver(exe, [w + '/plan.txt', i, 1, w + '/o.ndjson'])
             if dr['rc'] != 0:
                 print('REPLAY driver failure rc=%d %s' % (dr['rc'], dr['stderr'].decode(errors='replace')[-800:]))
